@@ -58,6 +58,19 @@ RANKDEF = {
 }
 
 
+# families used by deterministic classes only (never drawn at random, so the random stream of the checks does not depend on them)
+EXTRA_FAMILIES = {
+    # one function of FOUR parameters, declared in an order that differs from the model's parameter list
+    "mix4a": ([["mix4", 0, 2, 1, 3], ["const"]], 4, (0.25, 3.0)),
+    "mix4b": ([["const"], ["mix4", 3, 1, 2, 0]], 4, (0.25, 3.0)),
+    "mix4c": ([["mix4", 1, 0, 3, 2], ["lin"]], 4, (0.25, 3.0)),
+    "mix4d": ([["mix4", 0, 1, 2, 3], ["const"]], 4, (0.25, 3.0)),
+    # many basis functions (16 / 24): one decay and a comb of parameter-free bumps
+    "comb16": ([["exprate", 0]] + [["bump", j] for j in range(1, 16)], 1, (0.25, 1.5)),
+    "comb24": ([["exprate", 0]] + [["bump", j] for j in range(1, 24)], 1, (0.25, 1.5)),
+}
+
+
 def dyadic(rng, lo, hi, bits=4):
     """a random multiple of 2^-bits in [lo, hi]"""
     s = 1 << bits
@@ -79,6 +92,8 @@ def gen_problem(rng, scalar=None, family=None, N=None, S=None, ctor=None, weight
     family = family or rng.choice(list(FAMILIES))
     if family in RANKDEF:
         basis, P, (lo, hi), _sel = RANKDEF[family]
+    elif family in EXTRA_FAMILIES:
+        basis, P, (lo, hi) = EXTRA_FAMILIES[family]
     else:
         basis, P, (lo, hi) = FAMILIES[family]
     M = len(basis)
@@ -228,6 +243,10 @@ def py_basis(b, x, a):
             return a[b[1]] * x + a[b[2]] * x * x + a[b[1]] * a[b[2]]
         if k == "sq":
             return (a[b[1]] + x) ** 2
+        if k == "mix4":
+            return math.exp(-a[b[1]] * x) * math.cos(a[b[2]] * x) + a[b[3]] * x * math.exp(-a[b[4]] * x)
+        if k == "bump":
+            return math.exp(-8.0 * (x - 0.5 * b[1]) ** 2)
     except (OverflowError, ZeroDivisionError):
         return float("inf")
     raise ValueError(k)
